@@ -110,7 +110,7 @@ def shards(tier):
     return out
 
 
-def make_ruleset(rules_spec, hits):
+def make_ruleset(rules_spec, hits, multipliers=None):
     profiles = sorted({"a", "b"} | {p for table in hits.values() for p in table})
 
     def mk(profile):
@@ -125,7 +125,8 @@ def make_ruleset(rules_spec, hits):
         if extender is not None:
             ext = U.build(extender)
         rules.append(rule_parser.DetectionRule(name, "cat", cutoff, neigh, U.top(tree), superiors=list(superiors), extenders=ext))
-    return cluster_prediction.Ruleset(tuple(rules), {}, "", {"cat"}, "tool", dynamic_profiles=dyn, equivalence_groups=[])
+    extra = {"multipliers": multipliers} if multipliers is not None else {}
+    return cluster_prediction.Ruleset(tuple(rules), {}, "", {"cat"}, "tool", dynamic_profiles=dyn, equivalence_groups=[], **extra)
 
 
 def components(names, sets, cutoff, L, circular):
